@@ -24,7 +24,7 @@ use rustc_hir::definitions::DefPathData;
 use rustc_hir::{ExprKind, LoopSource, MatchSource, PatKind, QPath, StmtKind};
 use rustc_infer::infer::TyCtxtInferExt;
 use rustc_interface::interface::Compiler;
-use rustc_middle::ty::print::{with_no_trimmed_paths, PrintTraitRefExt};
+use rustc_middle::ty::print::with_no_trimmed_paths;
 use rustc_middle::ty::{self, Ty, TyCtxt, TypeckResults};
 use rustc_span::{ExpnKind, Span, SyntaxContext};
 use rustc_trait_selection::infer::InferCtxtExt;
@@ -170,7 +170,7 @@ impl<'tcx> Dumper<'tcx> {
                 match tcx.impl_opt_trait_ref(did) {
                     Some(tr) => {
                         let tr = tr.instantiate_identity().skip_norm_wip();
-                        let ts = with_no_trimmed_paths!(tr.print_only_trait_path().to_string());
+                        let ts = self.trait_path(tr);
                         format!("<{} as {}>", self_s, ts)
                     }
                     None => self_s,
@@ -191,6 +191,16 @@ impl<'tcx> Dumper<'tcx> {
         };
         self.qn_cache.insert(did, s.clone());
         s
+    }
+
+    fn trait_path(&mut self, tr: ty::TraitRef<'tcx>) -> String {
+        let base = self.qn(tr.def_id);
+        let rest: Vec<String> = tr.args.iter().skip(1).map(|a| with_no_trimmed_paths!(a.to_string())).collect();
+        if rest.is_empty() {
+            base
+        } else {
+            format!("{}<{}>", base, rest.join(", "))
+        }
     }
 
     fn def_ref(&mut self, o: &mut Obj, prefix: &str, did: DefId) {
@@ -787,7 +797,7 @@ impl<'tcx> Dumper<'tcx> {
             }
             ExprKind::Loop(b, _, src, _) => {
                 head!("loop");
-                o.s("src", &format!("{:?}", src));
+                o.s("lsrc", &format!("{:?}", src));
                 let s = self.block(cx, b, c);
                 o.raw("body", &s);
             }
@@ -1117,7 +1127,7 @@ impl<'tcx> Dumper<'tcx> {
                         let tr = hdr.trait_ref.instantiate_identity().skip_norm_wip();
                         let q = self.qn(tr.def_id);
                         o.s("trait", &q);
-                        let ts = with_no_trimmed_paths!(tr.print_only_trait_path().to_string());
+                        let ts = self.trait_path(tr);
                         o.s("trait_full", &ts);
                         o.b("unsafe", hdr.safety.is_unsafe());
                         o.b("negative", hdr.polarity != ty::ImplPolarity::Positive);
